@@ -5,6 +5,7 @@ import (
 	"encoding/json"
 	"errors"
 	"fmt"
+	"io"
 	"os"
 	"runtime"
 	"sort"
@@ -14,6 +15,7 @@ import (
 	"time"
 
 	"flamingo.me/flamingo/v3/framework/flamingo"
+	"flamingo.me/pugtemplate/pugjs"
 )
 
 // C09: the render rate limit.  One case = one engine and one history of driver
@@ -41,6 +43,23 @@ import (
 // inside), or after c09Cancel: that is the observation behind "promptly".
 // The race action ends the context of a waiting render WHILE it tells a render
 // inside to leave (concurrently, or one a few microseconds after the other).
+//
+// Requests.  A render is started by Engine.Render (one template: "g" calls
+// gate(id), "nosuch" does not exist) or by Engine.RenderPartials with a list of
+// partials (action field Partials: kinds "g" = partial whose template calls
+// gate(id), "t" = partial of plain text, "m" = unknown partial).  All partials
+// of a request get the same data, so the n-th call of gate with the id of a
+// request is its n-th "g" partial.  One request has ONE number (rid) and one
+// context.  It is "inside" while one of its templates is executing, i.e. from
+// a call of gate until the driver tells that call which way out to take; when
+// the driver tells a "g" partial that is not the last partial of its request
+// to return normally ("ok"), the request is from that moment counted as
+// waiting (it goes back to the gate for its next partial) and reported in
+// Moved of the window.  A failing template function panics out of
+// RenderPartials as it does out of Render.
+//
+// Engine mode.  Debug = true: every Render reloads its template first
+// (LoadTemplates(name)); everything else is driven and observed the same way.
 //
 // Arriving together.  The volley action starts N renders that call Render at
 // the same instant: their goroutines are parked on one barrier, spinning on a
@@ -76,32 +95,35 @@ const (
 )
 
 type c09Action struct {
-	Op      string `json:"op"`                 // start | volley | release | cancel | race | probe
-	N       int    `json:"n,omitempty"`        // volley: how many renders arrive together (2..8)
-	Missing bool   `json:"missing"`            // start: render a template that does not exist
-	Pick    int    `json:"pick"`               // release / cancel / race: index into the sorted inside / waiting set (mod size)
-	Outcome string `json:"outcome"`            // release / race: ok | func_error | panic
-	Ctx     string `json:"ctx,omitempty"`      // start: "" | cancelled | expired | at
-	K       int    `json:"k,omitempty"`        // start, ctx "at": the context ends at its K-th use (K >= 1)
-	Pick2   int    `json:"pick2,omitempty"`    // race: index of the render inside that is told to leave
-	Order   int    `json:"order,omitempty"`    // race: 0 both at once (two goroutines), 1 release then cancel, 2 cancel then release
-	DelayUs int    `json:"delay_us,omitempty"` // race, order 1 / 2: pause between the two (busy wait, <= 500)
+	Op       string   `json:"op"`                 // start | volley | release | cancel | race | probe
+	N        int      `json:"n,omitempty"`        // volley: how many renders arrive together (2..8)
+	Missing  bool     `json:"missing"`            // start: render a template that does not exist
+	Partials []string `json:"partials,omitempty"` // start / volley: RenderPartials with these partials (kinds g | t | m) instead of Render
+	Pick     int      `json:"pick"`               // release / cancel / race: index into the sorted inside / waiting set (mod size)
+	Outcome  string   `json:"outcome"`            // release / race: ok | func_error | panic
+	Ctx      string   `json:"ctx,omitempty"`      // start: "" | cancelled | expired | at
+	K        int      `json:"k,omitempty"`        // start, ctx "at": the context ends at its K-th use (K >= 1)
+	Pick2    int      `json:"pick2,omitempty"`    // race: index of the render inside that is told to leave
+	Order    int      `json:"order,omitempty"`    // race: 0 both at once (two goroutines), 1 release then cancel, 2 cancel then release
+	DelayUs  int      `json:"delay_us,omitempty"` // race, order 1 / 2: pause between the two (busy wait, <= 500)
 }
 
 // c09Shape is one kind of round, repeated Reps times (the shapes of a case take turns).
 type c09Shape struct {
-	Pre     int    `json:"pre"`     // renders put inside first (0 .. limit-1)
-	K       int    `json:"k"`       // callers that arrive together
-	Cancel  int    `json:"cancel"`  // waiting callers whose context is ended while the gate is full (<= 0: all)
-	Pick    int    `json:"pick"`    // the first of them: index into the sorted waiting set (mod size), then the following ones
-	Outcome string `json:"outcome"` // way out of the renders inside: ok | func_error | panic
-	Reps    int    `json:"reps"`
+	Pre      int      `json:"pre"`     // renders put inside first (0 .. limit-1)
+	K        int      `json:"k"`       // callers that arrive together
+	Cancel   int      `json:"cancel"`  // waiting callers whose context is ended while the gate is full (<= 0: all)
+	Pick     int      `json:"pick"`    // the first of them: index into the sorted waiting set (mod size), then the following ones
+	Outcome  string   `json:"outcome"` // way out of the renders inside: ok | func_error | panic
+	Reps     int      `json:"reps"`
+	Partials []string `json:"partials,omitempty"` // the callers that arrive together are RenderPartials requests with these partials
 }
 
 type c09Case struct {
 	Cap       int         `json:"cap"`
 	ViaInject bool        `json:"via_inject"` // limit set through Engine.Inject (config value) on an engine built with Init
 	Init      int         `json:"init"`
+	Debug     bool        `json:"debug,omitempty"` // Engine.Debug
 	Actions   []c09Action `json:"actions"`
 	Shapes    []c09Shape  `json:"shapes,omitempty"`
 	Procs     int         `json:"procs,omitempty"` // GOMAXPROCS for this case (0: leave it; never above the number of CPUs)
@@ -117,11 +139,13 @@ type c09Window struct {
 	Op       string   `json:"op"`    // start | release | cancel | probe | noop | drain | drain_cancel | refill
 	Rids     []int    `json:"rids"`  // renders the action addressed (started / released / cancelled)
 	Missing  bool     `json:"missing"`
+	Partials []string `json:"partials,omitempty"` // start: the requests are RenderPartials calls with these partials
 	Outcome  string   `json:"outcome,omitempty"`
 	Ctx      string   `json:"ctx,omitempty"` // start: the kind of context
 	Entered  []int    `json:"entered"`       // entry reports that arrived in this window, in order
 	Ended    []int    `json:"ended"`         // renders whose context was seen to be over for the first time in this window
-	Finished []c09Fin `json:"finished"`      // Render calls that returned in this window, in order
+	Finished []c09Fin `json:"finished"`      // requests that returned in this window, in order
+	Moved    []int    `json:"moved"`         // requests inside that were told in this window to go on to their next partial
 	Inside   []int    `json:"inside"`
 	Waiting  []int    `json:"waiting"`
 	Settled  bool     `json:"settled"`  // quiescence was reached before the timeout
@@ -157,8 +181,11 @@ type c09Render struct {
 	finished bool
 	told     bool
 	class    string
-	over     int32 // atomic: the context is over (set before the cancel is issued / when an "at" context fires)
-	overSeen bool  // reported in some window's Ended
+	steps    []string // RenderPartials: the kinds of its partials (nil: a Render call)
+	gcalls   int      // calls of gate so far
+	moved    bool     // the last thing it was told: go on to the next partial
+	over     int32    // atomic: the context is over (set before the cancel is issued / when an "at" context fires)
+	overSeen bool     // reported in some window's Ended
 }
 
 func (r *c09Render) end() {
@@ -234,6 +261,7 @@ type c09Hist struct {
 	wake    chan struct{}
 	next    int
 	stalled bool
+	moved   []int // requests told to go on to their next partial since the last window
 }
 
 func init() {
@@ -339,6 +367,8 @@ func (rt *c09Router) gate(id interface{}) (interface{}, error) {
 		return nil, fmt.Errorf("gate: unknown id %v", id)
 	}
 	r.entered = true
+	r.told = false
+	r.gcalls++
 	h.log = append(h.log, c09Log{enter: true, rid: rid})
 	h.mu.Unlock()
 	h.signal()
@@ -360,8 +390,20 @@ type c09Barrier struct {
 	yield bool
 }
 
-func (h *c09Hist) start(e renderer, missing bool, kind string, k int, bar *c09Barrier) *c09Render {
+func (h *c09Hist) start(e renderer, missing bool, partials []string, kind string, k int, bar *c09Barrier) *c09Render {
 	r := &c09Render{missing: missing, cmd: make(chan string, 1)}
+	if len(partials) > 0 {
+		r.missing = false
+		for _, p := range partials {
+			if p != "g" && p != "m" {
+				p = "t"
+			}
+			r.steps = append(r.steps, p)
+		}
+		if len(r.steps) > 6 {
+			r.steps = r.steps[:6]
+		}
+	}
 	var ctx context.Context
 	switch kind {
 	case "cancelled":
@@ -386,9 +428,10 @@ func (h *c09Hist) start(e renderer, missing bool, kind string, k int, bar *c09Ba
 	h.renders[rid] = r
 	h.mu.Unlock()
 	name := "g"
-	if missing {
+	if r.missing {
 		name = "nosuch"
 	}
+	steps := r.steps
 	data := map[string]interface{}{"id": "h" + strconv.Itoa(h.idx) + "r" + strconv.Itoa(rid)}
 	go func() {
 		if bar != nil {
@@ -409,7 +452,7 @@ func (h *c09Hist) start(e renderer, missing bool, kind string, k int, bar *c09Ba
 				}
 			}
 		}
-		res := e(ctx, name, data)
+		res := e(ctx, name, data, steps)
 		h.mu.Lock()
 		r.finished = true
 		r.class = res.Class
@@ -421,11 +464,11 @@ func (h *c09Hist) start(e renderer, missing bool, kind string, k int, bar *c09Ba
 }
 
 // startTogether starts n renders (live contexts) whose Render calls begin at the same instant.
-func (h *c09Hist) startTogether(e renderer, n int) (rs []*c09Render, ids []int) {
+func (h *c09Hist) startTogether(e renderer, n int, partials []string) (rs []*c09Render, ids []int) {
 	bar := &c09Barrier{yield: !h.alone || n >= runtime.GOMAXPROCS(0)}
 	bar.ready.Add(n)
 	for i := 0; i < n; i++ {
-		r := h.start(e, false, "", 0, bar)
+		r := h.start(e, false, partials, "", 0, bar)
 		rs = append(rs, r)
 		ids = append(ids, r.rid)
 	}
@@ -434,7 +477,22 @@ func (h *c09Hist) startTogether(e renderer, n int) (rs []*c09Render, ids []int) 
 	return
 }
 
-type renderer func(ctx context.Context, name string, data interface{}) renderResult
+// renderer: Render(name) when partials is empty, otherwise RenderPartials("p", partials)
+type renderer func(ctx context.Context, name string, data interface{}, partials []string) renderResult
+
+// more (h.mu held): the partial that is executing is not the last one of its request
+func (r *c09Render) more() bool {
+	n := 0
+	for i, s := range r.steps {
+		if s == "g" {
+			n++
+			if n == r.gcalls {
+				return i < len(r.steps)-1
+			}
+		}
+	}
+	return false
+}
 
 // sets must be called with h.mu held
 func (h *c09Hist) sets() (inside, waiting []int) {
@@ -555,6 +613,11 @@ func (h *c09Hist) window(w c09Window, settled bool) c09Window {
 	}
 	h.mark = len(h.log)
 	w.Inside, w.Waiting = h.sets()
+	w.Moved = h.moved
+	if w.Moved == nil {
+		w.Moved = []int{}
+	}
+	h.moved = nil
 	w.Settled = settled
 	if w.Rids == nil {
 		w.Rids = []int{}
@@ -574,9 +637,33 @@ func (h *c09Hist) allFinished(rs []*c09Render) func() bool {
 }
 
 func (h *c09Hist) tell(r *c09Render, outcome string) {
-	if !r.told {
-		r.told = true
-		r.cmd <- outcome
+	h.mu.Lock()
+	if r.told || !r.entered {
+		h.mu.Unlock()
+		return
+	}
+	r.told = true
+	r.moved = false
+	if outcome == "ok" && r.more() {
+		// back to the gate for the next partial
+		r.entered = false
+		r.moved = true
+		h.moved = append(h.moved, r.rid)
+	}
+	h.mu.Unlock()
+	r.cmd <- outcome
+}
+
+// passed: each of the requests that were told has returned, or - told to go on to its
+// next partial - is no longer counted as inside (h.mu held)
+func (h *c09Hist) passed(rs []*c09Render) func() bool {
+	return func() bool {
+		for _, r := range rs {
+			if !r.finished && !r.moved {
+				return false
+			}
+		}
+		return true
 	}
 }
 
@@ -590,7 +677,9 @@ func runC09(c c09Case) (obs c09Obs, err error) {
 	}
 	defer os.RemoveAll(dir)
 	ast := `{"type":"Block","nodes":[{"type":"Code","val":"gate(id)","buffer":true,"mustEscape":true,"isInline":true}]}`
-	if err := writeTree(dir, map[string]string{"template/page/g.ast.json": ast}); err != nil {
+	text := `{"type":"Block","nodes":[{"type":"Text","val":"t"}]}`
+	if err := writeTree(dir, map[string]string{"template/page/g.ast.json": ast,
+		"template/page/p.partial/g.ast.json": ast, "template/page/p.partial/t.ast.json": text}); err != nil {
 		return obs, err
 	}
 	rt := &c09Router{hists: map[int]*c09Hist{}}
@@ -605,7 +694,7 @@ func runC09(c c09Case) (obs c09Obs, err error) {
 	if c.ViaInject {
 		n = c.Init
 	}
-	e := newEngine(dir, false, n, extra)
+	e := newEngine(dir, c.Debug, n, extra)
 	if c.ViaInject {
 		// the parameter type of Inject is this anonymous struct, tag included
 		e.Inject(&struct {
@@ -618,8 +707,17 @@ func runC09(c c09Case) (obs c09Obs, err error) {
 	obs.Limit = e.GetRateLimit()
 	obs.Procs = runtime.GOMAXPROCS(0)
 	obs.Rounds = []c09Round{}
-	render := func(ctx context.Context, name string, data interface{}) renderResult {
-		return safeRender(e, ctx, name, data)
+	render := func(ctx context.Context, name string, data interface{}, partials []string) renderResult {
+		if len(partials) == 0 {
+			return safeRender(e, ctx, name, data)
+		}
+		names := make([]string, len(partials))
+		for i, p := range partials {
+			if names[i] = p; p == "m" {
+				names[i] = "nosuch"
+			}
+		}
+		return c09Partials(e, ctx, "p", data, names)
 	}
 	add := func(w c09Window) { obs.Windows = append(obs.Windows, w) }
 	byRid := func(ids []int, pick int) *c09Render {
@@ -663,9 +761,9 @@ func runC09(c c09Case) (obs c09Obs, err error) {
 			if kind != "cancelled" && kind != "expired" && kind != "at" {
 				kind = ""
 			}
-			r := h.start(render, a.Missing, kind, a.K, nil)
+			r := h.start(render, a.Missing, a.Partials, kind, a.K, nil)
 			ok := h.settle(h.quiescent, c09Settle, c09Grace)
-			add(h.window(c09Window{Phase: "history", Op: "start", Rids: []int{r.rid}, Missing: a.Missing, Ctx: kind}, ok))
+			add(h.window(c09Window{Phase: "history", Op: "start", Rids: []int{r.rid}, Missing: r.missing, Partials: r.steps, Ctx: kind}, ok))
 		case op == "volley":
 			n := a.N
 			if n < 2 {
@@ -673,9 +771,9 @@ func runC09(c c09Case) (obs c09Obs, err error) {
 			} else if n > 8 {
 				n = 8
 			}
-			_, ids := h.startTogether(render, n)
+			rs, ids := h.startTogether(render, n, a.Partials)
 			ok := h.settle(h.quiescent, c09Settle, c09Grace)
-			add(h.window(c09Window{Phase: "history", Op: "start", Rids: ids}, ok))
+			add(h.window(c09Window{Phase: "history", Op: "start", Rids: ids, Partials: rs[0].steps}, ok))
 		case op == "race":
 			d := time.Duration(a.DelayUs) * time.Microsecond
 			if d < 0 || d > 500*time.Microsecond {
@@ -698,14 +796,14 @@ func runC09(c c09Case) (obs c09Obs, err error) {
 				go target.end()
 				h.tell(target2, oc)
 			}
-			left := h.allFinished([]*c09Render{target2})
+			left := h.passed([]*c09Render{target2})
 			ok := h.settle(func() bool {
 				return left() && (target.finished || target.entered) && h.quiescent()
 			}, c09Cancel, c09Grace)
 			add(h.window(c09Window{Phase: "history", Op: "race", Rids: []int{target.rid, target2.rid}, Outcome: oc}, ok))
 		case op == "release" && target != nil:
 			h.tell(target, oc)
-			done := h.allFinished([]*c09Render{target})
+			done := h.passed([]*c09Render{target})
 			ok := h.settle(func() bool { return done() && h.quiescent() }, c09Settle, c09Grace)
 			add(h.window(c09Window{Phase: "history", Op: "release", Rids: []int{target.rid}, Outcome: oc}, ok))
 		case op == "cancel" && target != nil:
@@ -728,7 +826,11 @@ func runC09(c c09Case) (obs c09Obs, err error) {
 	add(h.window(c09Window{Phase: "history", Op: "probe"}, ok))
 
 	// ---- drain: let everything out the ordinary way, then give up on what is stuck
-	for round := 0; round < len(h.renders)+2; round++ {
+	drains := 2
+	for _, r := range h.renders {
+		drains += 1 + len(r.steps)
+	}
+	for round := 0; round < drains; round++ {
 		h.mu.Lock()
 		inside, _ := h.sets()
 		var rs []*c09Render
@@ -742,7 +844,7 @@ func runC09(c c09Case) (obs c09Obs, err error) {
 		for _, r := range rs {
 			h.tell(r, "ok")
 		}
-		done := h.allFinished(rs)
+		done := h.passed(rs)
 		ok := h.settle(func() bool { return done() && h.quiescent() }, c09Settle, c09Grace)
 		add(h.window(c09Window{Phase: "drain", Op: "drain", Rids: inside, Outcome: "ok"}, ok))
 	}
@@ -818,7 +920,7 @@ func runC09(c c09Case) (obs c09Obs, err error) {
 	var fresh []*c09Render
 	var freshIds []int
 	for i := 0; i < k; i++ {
-		r := h.start(render, false, "", 0, nil)
+		r := h.start(render, false, nil, "", 0, nil)
 		fresh = append(fresh, r)
 		freshIds = append(freshIds, r.rid)
 	}
@@ -841,6 +943,23 @@ func runC09(c c09Case) (obs c09Obs, err error) {
 	return obs, nil
 }
 
+// c09Partials calls Engine.RenderPartials and maps the ways out to the classes of safeRender.
+func c09Partials(e *pugjs.Engine, ctx context.Context, name string, data interface{}, partials []string) (res renderResult) {
+	defer func() {
+		if r := recover(); r != nil {
+			res = renderResult{Class: clsPanic, Err: fmt.Sprint(r)}
+		}
+	}()
+	m, err := e.RenderPartials(ctx, name, data, partials)
+	if err != nil {
+		return renderResult{Class: classifyErr(err), Err: err.Error()}
+	}
+	for _, rd := range m {
+		_, _ = io.ReadAll(rd)
+	}
+	return renderResult{Class: clsOK}
+}
+
 // cleanup lets everything out that is still there and reports how many goroutines stay blocked.
 func (h *c09Hist) cleanup() (leftover int) {
 	h.mu.Lock()
@@ -855,7 +974,18 @@ func (h *c09Hist) cleanup() (leftover int) {
 		return 0
 	}
 	for _, r := range all {
-		h.tell(r, "ok")
+		// also for requests still at the gate (the command waits in the buffer); a failure ends
+		// a request with several partials at once
+		h.mu.Lock()
+		pre := !r.told
+		r.told = true
+		h.mu.Unlock()
+		if pre {
+			select {
+			case r.cmd <- "func_error":
+			default:
+			}
+		}
 	}
 	h.settle(func() bool {
 		// whoever is still waiting gets cancelled as soon as the rest is out
@@ -901,7 +1031,7 @@ func runC09Round(h *c09Hist, render renderer, sh c09Shape) (ws []c09Window, clea
 		k = 16
 	}
 	if pre > 0 {
-		rs, ids := h.startTogether(render, pre)
+		rs, ids := h.startTogether(render, pre, nil)
 		allIn := func() bool {
 			for _, r := range rs {
 				if !r.entered {
@@ -914,9 +1044,9 @@ func runC09Round(h *c09Hist, render renderer, sh c09Shape) (ws []c09Window, clea
 		add(h.window(c09Window{Phase: "round", Op: "start", Rids: ids}, ok))
 	}
 	// the arrival
-	_, ids := h.startTogether(render, k)
+	arr, ids := h.startTogether(render, k, sh.Partials)
 	ok := h.settle(h.quiescent, c09RSettle, c09RGrace)
-	add(h.window(c09Window{Phase: "round", Op: "start", Rids: ids}, ok))
+	add(h.window(c09Window{Phase: "round", Op: "start", Rids: ids, Partials: arr[0].steps}, ok))
 	// contexts of waiting callers end while the renders inside are held
 	h.mu.Lock()
 	_, waiting := h.sets()
@@ -948,7 +1078,7 @@ func runC09Round(h *c09Hist, render renderer, sh c09Shape) (ws []c09Window, clea
 		add(w)
 	}
 	// everybody out, the ordinary way
-	for round := 0; round < pre+k+2; round++ {
+	for round := 0; round < (pre+k)*(1+len(sh.Partials))+2; round++ {
 		h.mu.Lock()
 		inside, _ := h.sets()
 		var rs []*c09Render
@@ -962,7 +1092,7 @@ func runC09Round(h *c09Hist, render renderer, sh c09Shape) (ws []c09Window, clea
 		for _, r := range rs {
 			h.tell(r, oc)
 		}
-		done := h.allFinished(rs)
+		done := h.passed(rs)
 		ok := h.settle(func() bool { return done() && h.quiescent() }, c09RSettle, 0)
 		add(h.window(c09Window{Phase: "round", Op: "drain", Rids: inside, Outcome: oc}, ok))
 	}
